@@ -700,6 +700,10 @@ def gen_glsloptable(tools):
 GENERATORS["glsloptable"] = gen_glsloptable
 
 
+import parsegen  # parser model: Gen/ParseTables.v
+GENERATORS["parse"] = lambda tools: parsegen.gen_parse(sys.modules[__name__], tools)
+
+
 def regenerate(tools, names):
     os.makedirs(GEN, exist_ok=True)
     files = []
